@@ -139,10 +139,17 @@ impl Compressable for FM {
         if self.is_zero() {
             return FMc([0u8; 32]);
         }
+        // canonical across processes: basis vectors are identified by their 64 uniform bytes, not by the
+        // order in which they were interned
         let mut h = Sha3_256::new();
         h.update(b"FM-compress");
-        for (k, v) in &self.0 {
-            h.update(k.to_le_bytes());
+        let mut entries: Vec<([u8; 64], &Scalar)> = {
+            let b = BASIS.lock().unwrap();
+            self.0.iter().map(|(k, v)| (b.bytes[*k as usize], v)).collect()
+        };
+        entries.sort_by(|a, b| a.0.cmp(&b.0));
+        for (k, v) in &entries {
+            h.update(k);
             h.update(v.as_bytes());
         }
         let out: [u8; 32] = h.finalize().into();
